@@ -429,24 +429,28 @@ def run(ctx: core.Check):
                 meta[n] = {"base": -1, "muts": f"nested-{'try-each' if code == 15 else 'run-sequence'}-{depth}"}
     # shared references (tags 28 / 29): an item that names its own parts repeatedly - a few bytes per level, twice the expansion per
     # level - under an unknown envelope key, as an integrated payload, in place of the manifest and of the authentication wrapper
-    def shared(depth):
-        cur = b"\xd8\x1c\x82\x01\x02"
+    def shared(depth, wide=0):
+        # wide: the tag heads as another well-formed encoder may write them (1 = two-byte argument d9 00 1c, 2 = eight-byte)
+        t28 = (b"\xd8\x1c", b"\xd9\x00\x1c", b"\xdb" + b"\x00" * 7 + b"\x1c")[wide]
+        t29 = (b"\xd8\x1d", b"\xd9\x00\x1d", b"\xdb" + b"\x00" * 7 + b"\x1d")[wide]
+        cur = t28 + b"\x82\x01\x02"
         for k_ in range(depth - 1, -1, -1):
-            cur = b"\xd8\x1c\x82" + cur + b"\xd8\x1d" + cborx.dumps(k_ + 1)
+            cur = t28 + b"\x82" + cur + t29 + cborx.dumps(k_ + 1)
         return cur
     mfb0 = cborx.dumps(cborx.Pairs([(1, 1), (2, 1), (3, cborx.dumps(cborx.Pairs([(2, [[b"M"]])])))]))
     auth0 = cborx.dumps([cborx.dumps([-16, hashlib.sha256(cborx.dumps(mfb0)).digest()])])
     for depth in ((4, 12, 22, 40) if ctx.quick else (2, 4, 8, 12, 16, 20, 22, 24, 30, 40, 100, 400)):
-        bomb = shared(depth)
-        for where, x in (("only-member", b"\xd8\x6b\xa1\x61x" + bomb),
-                         ("unknown-key", b"\xd8\x6b\xa3\x02" + cborx.dumps(auth0) + b"\x03" + cborx.dumps(mfb0) + b"\x18\x63" + bomb),
-                         ("payload", b"\xd8\x6b\xa3\x02" + cborx.dumps(auth0) + b"\x03" + cborx.dumps(mfb0) + b"\x62#p" + bomb),
-                         ("manifest", b"\xd8\x6b\xa2\x02" + cborx.dumps(auth0) + b"\x03" + bomb),
-                         ("wrapper", b"\xd8\x6b\xa2\x02" + bomb + b"\x03" + cborx.dumps(mfb0)),
-                         ("top", bomb)):
-            n += 1
-            mutants[n] = x
-            meta[n] = {"base": -1, "muts": f"shared-references-{where}-{depth}"}
+        for wide in (0, 1, 2):
+            bomb = shared(depth, wide)
+            for where, x in (("only-member", b"\xd8\x6b\xa1\x61x" + bomb),
+                             ("unknown-key", b"\xd8\x6b\xa3\x02" + cborx.dumps(auth0) + b"\x03" + cborx.dumps(mfb0) + b"\x18\x63" + bomb),
+                             ("payload", b"\xd8\x6b\xa3\x02" + cborx.dumps(auth0) + b"\x03" + cborx.dumps(mfb0) + b"\x62#p" + bomb),
+                             ("manifest", b"\xd8\x6b\xa2\x02" + cborx.dumps(auth0) + b"\x03" + bomb),
+                             ("wrapper", b"\xd8\x6b\xa2\x02" + bomb + b"\x03" + cborx.dumps(mfb0)),
+                             ("top", bomb)):
+                n += 1
+                mutants[n] = x
+                meta[n] = {"base": -1, "muts": f"shared-references-{where}-{depth}-w{wide}"}
     # a tag-96 item with a malformed body where the encryption info parameter is expected (single byte-string wrapper)
     for body in (b"\x01", b"\x82\x01\x02", b"\xa1\x01\x02", b"\x84\x40\xa0\xf6\x01", b"\x61x", b"\x84\x40\xa0\xf6\x80"):
         seq = cborx.dumps([20, cborx.Pairs([(19, b"\xd8\x60" + body)])])
